@@ -98,6 +98,7 @@ def families() -> dict[str, Family]:
 
     T = TABLE_CLS or P.Table   # (C02 substitutes a Table subclass that reports when it is rendered: a probe inside the render)
     t1, t2 = T("t1"), T("t2")
+    SCH = P.Schema("inv")
 
     def L(name, meth, f, extra=()):
         return Label(name, meth, f, extra)
@@ -122,6 +123,8 @@ def families() -> dict[str, Family]:
             "update": lambda Q=Q: Q.update(t1).set(t1.a, 1).where(t1.b == 2),
             "updjoin": lambda Q=Q: Q.update(t1).join(t2).on(t1.a == t2.a).set(t1.a, t2.b).where(t2.c == 2),
             "delete": lambda Q=Q: Q.from_(t1).delete().where(t1.a == 1),
+            # tables written as attributes of one Schema object (every access is expected to give a table of its own)
+            "schattr": lambda Q=Q: Q.from_(SCH.parts).select(SCH.parts.id, SCH.parts.qty).where(SCH.parts.qty > 3),
         }
         labels = [
             L("select#f", "select", lambda r: r.select(t1.b)),
@@ -138,6 +141,7 @@ def families() -> dict[str, Family]:
             L("orderby#f", "orderby", lambda r: r.orderby(t1.b)),
             L("orderby#desc", "orderby", lambda r: r.orderby(t1.c, order=Order.desc)),
             L("join#on", "join", lambda r: r.join(T("t3")).on(t1.a == T("t3").a)),
+            L("join#schema-attr", "join", lambda r: r.join(SCH.parts).on_field("parent_id")),
             L("join#using", "join", lambda r: r.join(T("t4"), JoinType.left).using("a")),
             L("join#cross", "join", lambda r: r.join(T("t5")).cross()),
             L("join#subq", "join", lambda r: r.join(sub()).on_field("z")),
